@@ -453,6 +453,9 @@ def drive_c20(ctx):
         ev = actions.peek(f, ch, tail)
         if ev is not None:
             rec.add('Peek', P, nt=True, **ev)
+    # the size-reading receiver on whole streams (Stream.tla, Mode = "peek")
+    for _ in range(4 if ctx.quick else 100):
+        stream_session(ctx, P, rng.choice([2, 5, 20]), peek=True)
 
 
 # ---------------------------------------------------------------------------
@@ -736,3 +739,92 @@ def drive_c08(ctx):
 @driver('C09')
 def drive_c09(ctx):
     fuzz(ctx, ['C09'], 1 if ctx.quick else 8)
+
+
+# ---------------------------------------------------------------------------
+# C06  the byte stream: exactly one frame consumed, whatever follows
+# ---------------------------------------------------------------------------
+class Receiver:
+    """a sans-io client's receive loop on a real bytes buffer"""
+
+    def __init__(self):
+        self.buf = b''
+        self.got = 0
+
+
+def stream_session(ctx, props, nframes, peek=False, script=None):
+    """Send / Deliver / TryDecode (or PeekRead) events of one session.
+    script: optional list of ('send', frame_bytes_index) / ('deliver', k) / ('decode',) from TLC"""
+    from pamqp import frame
+    rec, rng = ctx.rec, ctx.rng
+    rec.add('StreamReset', props)
+    rx = Receiver()
+    wire = b''
+    pending = []
+    for _ in range(nframes):
+        f, ch = framegen.rand_frame(rng)
+        if peek and type(f).__name__ == 'ProtocolHeader' and rng.random() < 0.7:
+            continue
+        pending.append((f, ch))
+
+    def decode_all():
+        while True:
+            if peek:
+                ev, progressed = actions.peek_read(rx)
+                rec.add('PeekRead', props, nt=True, **ev)
+            else:
+                ev, progressed = actions.try_decode(rx)
+                rec.add('TryDecode', props, nt=True, **ev)
+            if not progressed:
+                break
+    while pending or wire:
+        if pending and (not wire or rng.random() < 0.4):
+            for _ in range(rng.randint(1, 3)):
+                if pending:
+                    f, ch = pending.pop(0)
+                    ev = actions.send(f, ch)
+                    if ev['out']['r'] != 'ok':
+                        continue
+                    rec.add('Send', props, **ev)
+                    wire += bytes(ev['out']['b'])
+        if wire:
+            k = rng.choice([1, 1, 2, 6, 7, 8, len(wire), rng.randint(1, len(wire)), rng.randint(1, min(len(wire), 16))])
+            k = min(k, len(wire))
+            rx.buf += wire[:k]
+            wire = wire[k:]
+            rec.add('Deliver', props, k=k, buflen=len(rx.buf))
+            if rng.random() < 0.8:
+                decode_all()
+    decode_all()
+    rec.add('Quiesce', props, nt=True, buflen=len(rx.buf), got=rx.got)
+
+
+TAILS = [b'', b'\x00', b'\x01', b'\x08', b'A', b'\xce', b'AMQP', b'\x08\x00\x00\x00\x00\x00\x00\xce', b'\x01\x00\x01\x00\x00\x00\x04',
+         b'\xce\xce', b'\x00\x00', b'AM', b'\xff' * 9]
+
+
+@driver('C06')
+def drive_c06(ctx):
+    import json
+    from pamqp import frame
+    rec, rng = ctx.rec, ctx.rng
+    P = ['C06']
+    # S2C: every distinct receiver buffer reachable in the exhaustive Stream model, decoded by the real code
+    s2c = ctx.gen.get('stream_bufs')
+    if s2c:
+        bufs = [json.loads(l) for l in open(s2c)]
+        for i, item in enumerate(bufs):
+            if mine(ctx, i):
+                rec.add('Unmarshal', P, nt=True, label='s2c', **actions.unmarshal(bytes(item['buf'])))
+    # sessions
+    for _ in range(6 if ctx.quick else 120):
+        stream_session(ctx, P, rng.choice([2, 5, 20, rng.randint(20, 60)]))
+    # tail independence: a complete frame followed by anything
+    frames = corpus_frames(ctx, 12 if ctx.quick else 200)
+    for b in frames:
+        for t in (TAILS if len(b) < 300 else TAILS[:4]) + [bytes(rng.getrandbits(8) for _ in range(rng.randint(1, 20)))]:
+            rec.add('Unmarshal', P, nt=True, label='tail', **actions.unmarshal(b + t))
+    # envelope truth on whatever the decoder accepts
+    fuzz_small = list(itertools.islice(fuzz_inputs(ctx, 1), 0, None, 9 if ctx.quick else 2))
+    for label, b in fuzz_small:
+        rec.add('Unmarshal', P, nt=True, label=label, **actions.unmarshal(b))
